@@ -1,6 +1,10 @@
 """C07 — optional / variant / expected track the std types: case generators and configuration."""
+import hashlib
 import itertools
+import json
 import os
+import subprocess
+import tempfile
 
 ID = "C07"
 LEVEL = "proof"
@@ -440,3 +444,149 @@ def nontrivial(case, impl):
     if not impl.startswith("ok"):
         return False
     return case.startswith("disp") or " ; " in impl
+
+
+# --------------------------------------------------------------------------------------------------------------
+# API probes (compile-only, `extra_checks`): what the harness cannot observe at run time because the call is
+# ill-formed.  PROBES_MUST: forms etl provides today - they must keep compiling (one translation unit; a failure is
+# a violation with the offending statement).  PROBES_KNOWN: forms std::optional / std::expected provide and etl does
+# NOT (recorded, not repaired: they are additions, and the property is about the operators "that each type
+# provides"); each is compiled alone and must FAIL - when one starts to compile the note says so (then move it to
+# PROBES_MUST and into the harness).  Both lists are compiled against std:: as well (s/etl::/std::/) as a check of
+# the probes themselves: there every statement must compile.
+PROBE_HDR = """#include <etl/expected.hpp>
+#include <etl/optional.hpp>
+#include <etl/utility.hpp>
+#include <etl/variant.hpp>
+#include <expected>
+#include <optional>
+#include <utility>
+#include <variant>
+struct S { int v; friend bool operator==(S const&, S const&) = default; friend auto operator<=>(S const&, S const&) = default; };
+"""
+PROBES_MUST = [
+    ("optional-nullopt-eq-lt", "etl::optional<int> o; (void)(o == etl::nullopt); (void)(etl::nullopt == o); (void)(o != etl::nullopt); "
+                               "(void)(etl::nullopt != o); (void)(o < etl::nullopt); (void)(etl::nullopt < o);"),
+    ("optional-six-relations-mixed", "etl::optional<int> o; etl::optional<long> p; (void)(o == p); (void)(o != p); (void)(o < p); "
+                                     "(void)(o <= p); (void)(o > p); (void)(o >= p); (void)(o >= 3); (void)(3L <= o);"),
+    ("visit-returns-reference", "etl::variant<int, S> v; int k = 0; int& r = etl::visit([&](auto&) -> int& { return k; }, v); (void)r;"),
+    ("etl-only visit_with_index-returns-reference",
+     "etl::variant<int, S> v; int k = 0; int& q = etl::visit_with_index([&](auto) -> int& { return k; }, v); (void)q;"),
+    ("variant-copy-of-class-with-trivial-default-ctor",
+     "struct P { int v; P() = default; P(P const& o) noexcept : v(o.v) {} P(P&& o) noexcept : v(o.v) {} "
+     "P& operator=(P const&) noexcept { return *this; } P& operator=(P&&) noexcept { return *this; } }; "
+     "etl::variant<int, P> a; etl::variant<int, P> b(a); a = b; etl::optional<P> o; etl::optional<P> p(o); (void)p;"),
+    ("expected-observers", "etl::expected<int, long> e; (void)e.has_value(); (void)*e; (void)e.value_or(1); e.emplace(2); "
+                           "etl::expected<int, long> f(etl::unexpect, 3L); (void)f.error(); e = f;"),
+    ("unexpected-eq-swap", "etl::unexpected<int> a(1); etl::unexpected<long> b(2L); (void)(a == b); etl::unexpected<int> c(3); a.swap(c); swap(a, c);"),
+    ("repeated-alternative-by-index", "etl::variant<S, S> v(etl::in_place_index<1>, S{1}); v.emplace<0>(S{2}); (void)etl::get_if<1>(&v); "
+                                      "static_assert(!etl::is_constructible_v<etl::variant<S, S>, S>);"),
+]
+PROBES_KNOWN = [
+    ("KF-C07-optional-nullopt-relops", [
+        "etl::optional<int> o; (void)(o > etl::nullopt);", "etl::optional<int> o; (void)(o <= etl::nullopt);",
+        "etl::optional<int> o; (void)(o >= etl::nullopt);", "etl::optional<int> o; (void)(etl::nullopt > o);",
+        "etl::optional<int> o; (void)(etl::nullopt <= o);", "etl::optional<int> o; (void)(etl::nullopt >= o);"],
+     "optional vs nullopt: etl provides only == and < (both argument orders; != is the C++20 rewrite); opt > nullopt, opt <= nullopt, "
+     "opt >= nullopt, nullopt > opt, nullopt <= opt, nullopt >= opt select the unconstrained optional-vs-VALUE template and fail inside "
+     "its body (*opt > nullopt). [optional.nullops] has all of them through operator<=>. Missing overloads, recorded rather than "
+     "added (the property compares the relational operators each type provides)"),
+    ("KF-C07-expected-missing-members", [
+        "etl::expected<int, long> e; e = 5;", "etl::expected<int, long> e; e = etl::unexpected<long>(3L);",
+        "etl::expected<int, long> e(5);", "etl::expected<int, long> e(etl::unexpected<long>(3L));",
+        "etl::expected<int, long> e, f; e.swap(f);", "etl::expected<int, long> e, f; (void)(e == f);",
+        "etl::expected<int, long> e; (void)(e == 5);", "etl::expected<int, long> e; (void)(e == etl::unexpected<long>(3L));",
+        "etl::expected<int, long> e; (void)e.value();", "etl::expected<void, long> e;"],
+     "etl::expected<T, E> has no assignment from a value or from unexpected<G>, no converting constructors from a value / unexpected, "
+     "no swap, no operator== (expected/expected, expected/value, expected/unexpected), no value(), error_or, transform, "
+     "transform_error and no expected<void, E> ([expected.object.assign], [expected.object.swap], [expected.object.eq], "
+     "[expected.void]); what it has (in_place / unexpect construction, copy / move, emplace, observers, value_or, and_then, or_else) "
+     "is compared with std::expected. Additions, recorded rather than written"),
+]
+
+
+def _probe_src(body, std):
+    src = PROBE_HDR + "int main() {\n" + body + "\nreturn 0; }\n"
+    return src.replace("etl::", "std::") if std else src
+
+
+def _probe_compile(repo, body, std=False):
+    with tempfile.NamedTemporaryFile("w", suffix=".cpp", delete=False) as f:
+        f.write(_probe_src(body, std))
+        path = f.name
+    try:
+        p = subprocess.run(["g++", "-std=c++2b", "-fsyntax-only", "-w", f"-I{repo}/include", path],
+                           stdout=subprocess.PIPE, stderr=subprocess.PIPE, timeout=300)
+        return p.returncode == 0, p.stderr.decode("utf-8", "replace")[-1200:]
+    finally:
+        os.unlink(path)
+
+
+def _probe_key(repo):
+    """content hash of the anchored headers' directories + this file's probe lists"""
+    h = hashlib.sha256()
+    inc = os.path.join(repo, "include", "etl")
+    for sub in ("_optional", "_variant", "_expected", "_utility", "_type_traits", "_meta", "_functional", "_tuple"):
+        d = os.path.join(inc, sub)
+        for fn in sorted(os.listdir(d)) if os.path.isdir(d) else []:
+            with open(os.path.join(d, fn), "rb") as f:
+                h.update(fn.encode())
+                h.update(f.read())
+    h.update(json.dumps([PROBE_HDR, PROBES_MUST, PROBES_KNOWN]).encode())
+    return h.hexdigest()[:16]
+
+
+def _probe_results(repo):
+    here = os.path.dirname(os.path.abspath(__file__))
+    cdir = os.path.join(os.path.dirname(os.path.dirname(here)), "build", "C07")
+    os.makedirs(cdir, exist_ok=True)
+    cache = os.path.join(cdir, "probes-" + _probe_key(repo) + ".json")
+    if os.path.exists(cache):
+        with open(cache) as f:
+            return json.load(f)
+    from concurrent.futures import ThreadPoolExecutor
+    jobs = [("must", name, body, False) for name, body in PROBES_MUST]
+    jobs.append(("must-std", "all", "\n".join("{ " + body + " }" for n, body in PROBES_MUST if not n.startswith("etl-only")), True))
+    for kid, bodies, _ in PROBES_KNOWN:
+        for b in bodies:
+            jobs.append(("known", kid, b, False))
+        jobs.append(("known-std", kid, "\n".join("{ " + b + " }" for b in bodies), True))
+    with ThreadPoolExecutor(max_workers=4) as ex:
+        res = list(ex.map(lambda j: _probe_compile(repo, j[2], j[3]), jobs))
+    out = [{"kind": j[0], "name": j[1], "body": j[2], "ok": r[0], "err": "" if r[0] else r[1]} for j, r in zip(jobs, res)]
+    for old in os.listdir(cdir):
+        if old.startswith("probes-"):
+            os.unlink(os.path.join(cdir, old))
+    with open(cache, "w") as f:
+        json.dump(out, f)
+    return out
+
+
+def extra_checks(ctx):
+    repo = os.environ.get("VERIF_REPO", "/repo")
+    items = []
+    res = _probe_results(repo)
+    must_ok = 0
+    for r in res:
+        if r["kind"] == "must":
+            if r["ok"]:
+                must_ok += 1
+            else:
+                items.append({"kind": "violation", "found_input": True,
+                              "payload": {"property": "C07", "kind": "a call form etl provides (and std provides) no longer compiles",
+                                          "probe": r["name"], "statements": r["body"], "compiler_output": r["err"]}})
+        elif r["kind"] in ("must-std", "known-std") and not r["ok"]:
+            items.append({"kind": "note", "text": f"MACHINERY: API probe list {r['name']} does not compile against std:: either: {r['err'][-300:]}"})
+            print(f"MACHINERY-WARNING property=C07: API probes ({r['kind']} {r['name']}) do not compile against libstdc++: fix props/C07/prop.py")
+    for kid, bodies, what in PROBES_KNOWN:
+        rs = [r for r in res if r["kind"] == "known" and r["name"] == kid]
+        still = [r["body"] for r in rs if not r["ok"]]
+        now_ok = [r["body"] for r in rs if r["ok"]]
+        if still:
+            items.append({"kind": "known", "text": f"{kid}: {what} [{len(still)}/{len(rs)} probe statements are ill-formed with etl, well-formed with std; e.g. {still[0]}]"})
+        if now_ok:
+            items.append({"kind": "note", "text": f"{kid}: {len(now_ok)} recorded-missing call forms now compile (move them to PROBES_MUST and into the harness): {now_ok[:3]}"})
+    items.append({"kind": "note", "text": f"{must_ok}/{len(PROBES_MUST)} API probes of provided call forms compile"})
+    ctx.evidence = {"api_probes": {"must_compile": [n for n, _ in PROBES_MUST], "passed": must_ok,
+                                   "recorded_missing": {k: len(b) for k, b, _ in PROBES_KNOWN}}}
+    return items
